@@ -419,9 +419,10 @@ def v_save_checkpoint(p):
     ctx.oblige('ckpt.keep.count', n - cut <= keep, detail='at most `keep` checkpoints are retained')
     q = z3.Int('q')
     ctx.oblige('ckpt.new', z3.Implies(
-        z3.ForAll([q], z3.Implies(z3.Select(done, q), q < rnd)),
+        z3.ForAll([q], z3.Implies(z3.Select(done, q), q <= rnd)),
         z3.And(z3.Select(g['fs_done'], rnd), z3.Select(g['fs_content'], rnd) == st)),
-        detail='a checkpoint newer than all existing ones is retained with the saved state')
+        detail='a checkpoint at least as new as all existing ones (the same round saved again included) is retained '
+               'with the saved state')
     ctx.oblige('ckpt.content', z3.Implies(
         z3.And(z3.Select(g['fs_done'], q0), q0 != rnd),
         z3.Select(g['fs_content'], q0) == z3.Select(content, q0)),
